@@ -4,6 +4,7 @@ import (
 	"context"
 	"encoding/json"
 	"fmt"
+	"github.com/skx/evalfilter/v2/object"
 	"os"
 	"path/filepath"
 	"strings"
@@ -31,6 +32,25 @@ func (g *StressGen) Build() string {
 	n := g.N
 	rep := strings.Repeat
 	switch g.Shape {
+	case "grown-array-string", "grown-hash-string", "grown-array-return", "grown-array-compare", "grown-array-in", "grown-hash-keys-return", "grown-array-print":
+		// values that are nested n deep at run time, built by a loop (a few dozen
+		// bytes of script, some tens of bytes of memory per level)
+		grow := "a = [a];"
+		if strings.Contains(g.Shape, "hash") {
+			grow = "a = {\"k\": a};"
+		}
+		pre := fmt.Sprintf("a = 1; n = 0; while (n < %d) { %s n = n + 1; } ", n, grow)
+		switch g.Shape {
+		case "grown-array-string", "grown-hash-string":
+			return pre + "return len(string(a));"
+		case "grown-array-compare":
+			return pre + "b = a; return a == b;"
+		case "grown-array-in":
+			return pre + "return a in [a];"
+		case "grown-array-print":
+			return pre + "print(a); return 1;"
+		}
+		return pre + "return a;"
 	case "paren":
 		return "return " + rep("(", n) + "1" + rep(")", n) + ";"
 	case "square":
@@ -137,7 +157,8 @@ func (g *StressGen) Build() string {
 var stressShapes = []string{"paren", "square", "brace", "minus", "bang", "sqrt", "if", "elseif", "while", "foreach", "function", "switch",
 	"chain+", "chain&&", "chain..", "chainstr", "index", "dot", "call", "callargs", "array", "hash", "statements", "exprstatements", "comments", "semicolons",
 	"open-paren", "open-square", "open-brace", "open-if", "open-call", "close-only", "ternary-chain", "ternary-cond", "assign-chain",
-	"longident", "longstring", "longnumber", "longregexp", "prefix-mix", "recursion", "mutual-recursion", "recursion-in-loop", "recursion-void", "recursion-by-field", "fault-by-field"}
+	"longident", "longstring", "longnumber", "longregexp", "prefix-mix", "recursion", "mutual-recursion", "recursion-in-loop", "recursion-void", "recursion-by-field", "fault-by-field",
+	"grown-array-string", "grown-hash-string", "grown-array-return", "grown-array-compare", "grown-array-in", "grown-hash-keys-return", "grown-array-print"}
 
 // CrashCase is one no-crash case.
 type CrashCase struct {
@@ -286,6 +307,15 @@ func runCrashCase(part string, c *CrashCase) (outcome string, err error) {
 				out, xerr := r.E.Execute(obj)
 				if xerr == nil && out == nil && err == nil {
 					err = fmt.Errorf("Execute returned neither an object nor an error")
+				}
+				if xerr == nil && out != nil {
+					// a host looks at what it got: type, printed form, truth
+					_ = out.Type()
+					_ = out.Inspect()
+					_ = out.True()
+					if j, ok := out.(object.JSONAble); ok {
+						_, _ = j.JSON()
+					}
 				}
 			})
 			if err != nil {
@@ -579,7 +609,8 @@ func TestC08Stress(t *testing.T) {
 	si, sn := shardIndex()
 	k := 0
 	_ = 0
-	deepQuick := map[string]bool{"comments": true, "paren": true, "minus": true, "bang": true, "open-paren": true, "prefix-mix": true, "elseif": true, "chain&&": true, "index": true, "call": true, "if": true}
+	deepQuick := map[string]bool{"comments": true, "paren": true, "minus": true, "bang": true, "open-paren": true, "prefix-mix": true, "elseif": true, "chain&&": true, "index": true, "call": true, "if": true,
+		"grown-array-string": true, "grown-hash-string": true, "grown-array-return": true, "grown-array-print": true}
 	for _, shape := range stressShapes {
 		ss := sizes
 		if !thorough() && deepQuick[shape] {
@@ -596,6 +627,9 @@ func TestC08Stress(t *testing.T) {
 			}
 			if shape == "comments" && n >= 2000000 {
 				g.N = 6000000 // 30 MB of nothing but comments
+			}
+			if strings.HasPrefix(shape, "grown-") && n >= 2000000 {
+				g.N = 3000000 // a value nested three million deep costs ~150 MB, no more
 			}
 			c := &CrashCase{Prop: "C08", Kind: "stress", Gen: g}
 			if strings.HasSuffix(shape, "-by-field") {
